@@ -309,6 +309,19 @@ pub fn parse_currency_non_commodity(input: &str) -> Result<String, ParseError> {
 
 /// Parse amount with optional decimal places
 pub fn parse_amount(input: &str) -> Result<f64, ParseError> {
+    // SWIFT amounts are digits with at most one decimal separator after at least one digit;
+    // reject everything else that a float parser would take (NaN, inf, exponents, signs, ".5")
+    if !input.starts_with(|c: char| c.is_ascii_digit())
+        || !input
+            .chars()
+            .all(|c| c.is_ascii_digit() || c == ',' || c == '.')
+        || input.chars().filter(|c| *c == ',' || *c == '.').count() > 1
+    {
+        return Err(ParseError::InvalidFormat {
+            message: format!("Invalid amount format: {}", input),
+        });
+    }
+
     // Remove any commas (European decimal separator handling)
     let normalized = input.replace(',', ".");
 
